@@ -1,3 +1,15 @@
 import RV.C09.Props
 open RV.C09
 #print axioms converter_table
+#print axioms integer_bounds_table
+#print axioms rule_tables
+#print axioms py_to_lit_valid
+#print axioms lit_to_py_back
+#print axioms lex_to_value_xsd_partial
+#print axioms lex_to_value_xsd_witness
+#print axioms normalize_same_value_partial
+#print axioms normalize_same_value_witness
+#print axioms normalize_idempotent
+#print axioms eq_agrees
+#print axioms term_eq_implies_eq_partial
+#print axioms denotes_cases
